@@ -567,6 +567,82 @@ func (s *seqT) headroom(u int, o obs) sdk.Dec {
 	return h
 }
 
+// head room as the keeper must see it: from the SYNCED deposit and borrow (GetSyncedDeposit / GetSyncedBorrow, i.e.
+// with the interest accrued since the user's last action); falls back to the stored records if a query panics
+func (s *seqT) headroomSynced(u int, o obs) sdk.Dec {
+	k := s.w.tApp.GetHardKeeper()
+	dep, bor := o.dep[u], o.bor[u]
+	c.Recover(func() {
+		if dp, ok := k.GetSyncedDeposit(s.ctx, s.w.users[u]); ok {
+			dep = amounts(dp.Amount)
+		}
+		if br, ok := k.GetSyncedBorrow(s.ctx, s.w.users[u]); ok {
+			bor = amounts(br.Amount)
+		}
+	})
+	pr := s.prices()
+	h := sdk.ZeroDec()
+	for d := range denoms {
+		mm, _ := k.GetMoneyMarket(s.ctx, denoms[d])
+		h = h.Add(usd(dep[d], d, pr[d]).Mul(mm.BorrowLimit.LoanToValue))
+		h = h.Sub(usd(bor[d], d, pr[d]))
+	}
+	return h
+}
+
+// a borrow amount of denom d chosen around / between the stale boundary (head room computed from the STORED borrow,
+// without pending interest) and the true boundary (from the SYNCED borrow): a keeper that validates against the
+// un-synced debt accepts amounts in between, and the liquidation probe after the borrow then succeeds
+func (s *seqT) staleAwareAmount(u, d int, o obs, price sdk.Dec) (*big.Int, bool) {
+	r := s.r
+	k := s.w.tApp.GetHardKeeper()
+	hStale, hTrue := s.headroom(u, o), s.headroomSynced(u, o)
+	if hStale.Equal(hTrue) || !hStale.IsPositive() {
+		return nil, false
+	}
+	xs, xt := amountFor(hStale, d, price), amountFor(hTrue, d, price)
+	if xs.Cmp(xt) == 0 {
+		return nil, false
+	}
+	accept := func(x *big.Int) bool {
+		return s.try(func(cx sdk.Context) error { return k.Borrow(cx, s.w.users[u], coinsOf(one(d, x))) })
+	}
+	mid := new(big.Int).Rsh(new(big.Int).Add(xs, xt), 1)
+	var amt *big.Int
+	switch r.Intn(8) {
+	case 0:
+		amt = new(big.Int).Add(xs, bi(r.Range(-1, 1)))
+	case 1:
+		amt = new(big.Int).Add(xt, bi(r.Range(-1, 1)))
+	case 2, 3:
+		amt = mid
+	case 4: // anywhere between the two boundaries
+		lo, hi := xt, xs
+		if lo.Cmp(hi) > 0 {
+			lo, hi = hi, lo
+		}
+		amt = new(big.Int).Add(lo, r.BigBelow(new(big.Int).Sub(hi, lo)))
+	case 5: // largest accepted near the true boundary
+		if b := s.largestAccepted(xt, 3, accept); b != nil {
+			amt = new(big.Int).Add(b, bi(c.Pick(r, []int64{0, 0, 1})))
+		} else {
+			amt = xt
+		}
+	default: // largest accepted near the stale boundary (none on a correct keeper)
+		if b := s.largestAccepted(xs, 3, accept); b != nil {
+			amt = b
+			s.out.Note("borrow-boundary:accepted-at-stale-boundary")
+		} else {
+			amt = new(big.Int).Sub(xs, bi(r.Range(0, 3)))
+		}
+	}
+	if amt.Sign() <= 0 {
+		return nil, false
+	}
+	s.out.Note("borrow-boundary:stale-vs-synced")
+	return amt, true
+}
+
 func (s *seqT) genAmount(d int, avail *big.Int) *big.Int {
 	r := s.r
 	cf := pow10(cfExp[d])
@@ -654,6 +730,11 @@ func (s *seqT) randomOp() {
 	case x < 50: // borrow around the LTV boundary
 		h := s.headroom(u, o)
 		var amt *big.Int
+		if a, ok := s.staleAwareAmount(u, d, o, pr[d]); ok && r.Chance(65) {
+			// interest is pending on this user's position
+			s.borrow(u, one(d, a))
+			return
+		}
 		switch r.Intn(8) {
 		case 0:
 			amt = s.genAmount(d, o.cash[d])
@@ -846,6 +927,10 @@ func (w *world) seq(out *c.Out, seq int, r *c.Rng) {
 		w.pureSync(out, r, c.Budget(3000, 200000))
 		return
 	}
+	if seq == 4 {
+		w.scenarioStaleDebt(out, r)
+		return
+	}
 	s := w.newSeq(out, seq, r)
 	w.fund(s.ctx, r)
 	w.applyCfg(s.ctx, w.randomCfg(r))
@@ -864,8 +949,56 @@ func (w *world) seq(out *c.Out, seq int, r *c.Rng) {
 		if r.Chance(22) {
 			s.beginBlock(c.Pick(r, gaps))
 		}
+		if r.Chance(6) {
+			s.idleBorrowerPattern()
+			continue
+		}
 		s.randomOp()
 	}
+}
+
+// a borrower close to the limit stays idle while interest accrues over long gaps (other users may act), then borrows
+// again with an amount around / between the stale and the true boundary
+func (s *seqT) idleBorrowerPattern() {
+	r, w := s.r, s.w
+	k := w.tApp.GetHardKeeper()
+	o := w.observe(s.ctx)
+	var cand []int
+	for v := 0; v < nUsers; v++ {
+		if !allZero(o.dep[v]) {
+			cand = append(cand, v)
+		}
+	}
+	if len(cand) == 0 {
+		return
+	}
+	u := cand[r.Intn(len(cand))]
+	d := r.Intn(len(denoms))
+	pr := s.prices()
+	if allZero(o.bor[u]) || r.Chance(50) { // get close to the limit first
+		x0 := new(big.Int).Div(new(big.Int).Mul(amountFor(s.headroom(u, o), d, pr[d]), bi(r.Range(60, 99))), bi(100))
+		if x0.Sign() > 0 {
+			s.borrow(u, one(d, x0))
+		}
+	}
+	for i := int64(0); i < r.Range(1, 3); i++ {
+		s.beginBlock(c.Pick(r, []int64{86400, 30 * 86400, 365 * 86400, 3600}))
+		if r.Chance(30) { // somebody else acts
+			v := (u + 1 + r.Intn(nUsers-1)) % nUsers
+			s.deposit(v, one(d, s.genAmount(d, o.bal[v][d])))
+		}
+	}
+	o = w.observe(s.ctx)
+	for t := 0; t < 2; t++ {
+		if a, ok := s.staleAwareAmount(u, d, o, pr[d]); ok {
+			s.borrow(u, one(d, a))
+			o = w.observe(s.ctx)
+		} else {
+			break
+		}
+	}
+	_ = k
+	s.out.Note("pattern:idle-borrower")
 }
 
 // Former F5 witness (fixed by 68803c96d), replayed on every run: conversion factor 10^6, price 1.000000000000000001, a
@@ -974,6 +1107,61 @@ func (w *world) scenarioDiv0(out *c.Out, r *c.Rng) {
 		return
 	}
 	out.Note("scenario:div0:not-reached")
+}
+
+// Directed: the LTV gate must value the existing debt WITH the interest accrued since the borrower's last action.
+// Deposit 100 denb at 2.0 (LTV 0.8: limit 160), borrow 140 dena, one year without any action by the borrower
+// (owed about 150), then borrows sized between the true head room (about 10) and the stale one (20), around each of
+// them, and the largest accepted one.  A keeper that validates against the stored principal accepts the middle ones and
+// the liquidation probe right after them succeeds (PREDFAIL C08_borrow_within_ltv beyond-rounding).
+func (w *world) scenarioStaleDebt(out *c.Out, r *c.Rng) {
+	for variant := 0; variant < 3; variant++ {
+		s := w.newSeq(out, 4, r)
+		w.fund(s.ctx, c.NewRng(1))
+		var cf cfgT
+		model := hardtypes.NewInterestRateModel(dec("0.05"), dec("0.1"), dec("0.8"), dec("0.5"))
+		for d := range denoms {
+			cf.mms = append(cf.mms, hardtypes.NewMoneyMarket(denoms[d], hardtypes.NewBorrowLimit(false, sdk.ZeroDec(), dec("0.8")), marketID(d), cfOf(d), model, dec("0.05"), dec("0.05")))
+		}
+		cf.prices = []sdk.Dec{dec("1.0"), dec("2.0"), dec("1.0")}
+		cf.minBorrow = dec("0")
+		w.applyCfg(s.ctx, cf)
+		s.beginBlock(0)
+		bd := []int{0, 2, 0}[variant] // borrowed denom: cf 10^6, 10^18, 10^6
+		unit := pow10(cfExp[bd])
+		s.deposit(1, one(bd, new(big.Int).Mul(unit, bi(180))))    // pool cash
+		s.deposit(0, one(1, new(big.Int).Mul(pow10(8), bi(100)))) // 100 denb at 2.0
+		s.borrow(0, one(bd, new(big.Int).Mul(unit, bi(140))))     // 140 of the 160 limit
+		s.beginBlock(365 * 86400)                                 // the borrower does nothing
+		if variant == 2 {
+			s.beginBlock(30 * 86400)
+			s.deposit(2, one(0, new(big.Int).Mul(unit, bi(5)))) // somebody else acts
+		}
+		o := w.observe(s.ctx)
+		pr := s.prices()
+		xs, xt := amountFor(s.headroom(0, o), bd, pr[bd]), amountFor(s.headroomSynced(0, o), bd, pr[bd])
+		mid := new(big.Int).Rsh(new(big.Int).Add(xs, xt), 1)
+		k := w.tApp.GetHardKeeper()
+		for _, x := range []*big.Int{mid, new(big.Int).Sub(xs, bi(1)), xs, new(big.Int).Add(xt, bi(2)), new(big.Int).Add(xt, new(big.Int).Rsh(new(big.Int).Sub(xs, xt), 2))} {
+			// each candidate on its own copy of the state (an accepted one would change the head room)
+			if x.Sign() <= 0 {
+				continue
+			}
+			save := s.ctx
+			s.ctx, _ = save.CacheContext()
+			s.borrow(0, one(bd, x))
+			s.ctx = save
+		}
+		best := s.largestAccepted(xt, 3, func(x *big.Int) bool {
+			return s.try(func(cx sdk.Context) error { return k.Borrow(cx, w.users[0], coinsOf(one(bd, x))) })
+		})
+		if best != nil {
+			s.borrow(0, one(bd, best))
+			out.Note("scenario:stale-debt:true-boundary-solved")
+		}
+		s.liquidate(2, 0)
+	}
+	out.Note("scenario:stale-debt")
 }
 
 // Pure correspondence of the four sync formulas (SyncSupplyInterest: mul-then-quo, added only when positive;
